@@ -10,7 +10,7 @@ class H:
 
     def __init__(self, fn, key=None, unwind=None, unwindset=(), defines=(), flags=(), timeout=600,
                  replace_calls=(), witness=True, native=True, family=None, object_bits=None,
-                 std=True, desc=""):
+                 std=True, desc="", unwind_violation=False):
         self.fn = fn
         self.key = key or fn
         self.unwind = unwind
@@ -25,6 +25,7 @@ class H:
         self.object_bits = object_bits
         self.std = std
         self.desc = desc
+        self.unwind_violation = unwind_violation     # True: a failed unwinding assertion is a termination VIOLATION, not a too-small bound
 
 
 def _flatten(prefix, v, out):
@@ -162,7 +163,7 @@ def run_set(chk, src, harnesses, workers=None, extra_src=()):
         elif r.status == "violated":
             descs = "; ".join("%s [%s:%s]" % (f[1], f[2].get("file", "?").split("/")[-1], f[2].get("line", "?"))
                               for f in r.failed[:4])
-            if r.unwind_failed and all("unwind" in (f[0] or "") for f in r.failed):
+            if r.unwind_failed and all("unwind" in (f[0] or "") for f in r.failed) and not h.unwind_violation:
                 chk.add(key, "inconclusive", "unwinding assertion failed (bound too small): " + descs,
                         secs, family=fam)
                 continue
